@@ -69,7 +69,10 @@ func queryText(fr *FuncResult, o *Obligation, withModel bool) string {
 	if n > len(fr.Asserts) {
 		n = len(fr.Asserts)
 	}
-	for _, a := range fr.Asserts[:n] {
+	for i, a := range fr.Asserts[:n] {
+		if o.Kind == "cover" && fr.OblAssumes[i] {
+			continue // reachability is judged without assuming the obligations themselves
+		}
 		b.WriteString("(assert ")
 		b.WriteString(a)
 		b.WriteString(")\n")
@@ -308,8 +311,11 @@ func relaxedQuery(fr *FuncResult, o *Obligation) string {
 	if n > len(fr.Asserts) {
 		n = len(fr.Asserts)
 	}
-	for _, a := range fr.Asserts[:n] {
+	for i, a := range fr.Asserts[:n] {
 		if strings.Contains(a, "(forall") || strings.Contains(a, "(exists") {
+			continue
+		}
+		if o.Kind == "cover" && fr.OblAssumes[i] {
 			continue
 		}
 		fmt.Fprintf(&b, "(assert %s)\n", a)
